@@ -502,6 +502,16 @@ public:
       this->thePvec->setTolerances(newTolerances);
       this->theRPvec->setTolerances(newTolerances);
       this->theCPvec->setTolerances(newTolerances);
+
+      // the active pricer, ratio tester and starter must use the same tolerances as the solver
+      if(thepricer != nullptr)
+         thepricer->setTolerances(newTolerances);
+
+      if(theratiotester != nullptr)
+         theratiotester->setTolerances(newTolerances);
+
+      if(thestarter != nullptr)
+         thestarter->setTolerances(newTolerances);
    }
 
    /// returns current tolerances
